@@ -734,6 +734,10 @@ ARecoverARet ==
         ELSE IF ~alt.some THEN Panic
         ELSE CASE Op(s) = "via" ->
                     Call([f2 EXCEPT !.pc = 2], 2, s[2], f.mode, f.cp.cur, rsec, f.cp.insp, NoAlt)
+               \* via_parser(nested_delimiters(start, end, others, fallback)): the fallback parser is the grammar
+               \* recovery.rs builds (s[5]); the strategy is via_parser
+               [] Op(s) = "nesteddelim" ->
+                    Call([f2 EXCEPT !.pc = 2], 2, s[5], f.mode, f.cp.cur, rsec, f.cp.insp, NoAlt)
                [] Op(s) = "skipuntil" ->
                     Call([f2 EXCEPT !.pc = 3], 3, s[3], "C", f.cp.cur, rsec, f.cp.insp, NoAlt)
                [] Op(s) = "retry" ->
